@@ -1,16 +1,24 @@
 """C12 — binomial AND/OR multiply probabilities and are De Morgan duals."""
+import os
+from decimal import Decimal
 from fractions import Fraction as Fr
 from .. import gen as G
 from .common import TRUSTED, ASSUMPTIONS, default_nontrivial, LEVEL_NOTE, TECHNIQUE
 
 LEVEL = "proof"
-THEOREMS = ['C12_mul_ok', 'C12_mul_wf', 'C12_mul_base_rate', 'C12_mul_projection', 'C12_comul_ok', 'C12_comul_wf', 'C12_comul_base_rate', 'C12_comul_projection', 'C12_mul_comm', 'C12_comul_comm', 'C12_de_morgan', 'C12_de_morgan_dual', 'C12_mul_assoc', 'C12_comul_assoc', 'C12_defined_iff']
+THEOREMS = ['C12_mul_ok', 'C12_mul_wf', 'C12_mul_base_rate', 'C12_mul_projection', 'C12_comul_ok', 'C12_comul_wf', 'C12_comul_base_rate', 'C12_comul_projection', 'C12_mul_comm', 'C12_comul_comm', 'C12_de_morgan', 'C12_de_morgan_dual', 'C12_mul_assoc', 'C12_comul_assoc', 'C12_defined_iff', 'C12_mul_lift', 'C12_comul_lift', 'C12_mul_sum', 'C12_comul_sum', 'C12_eq_unnormalised']
 RULE = ("bmul/bcomul on pairs of well-formed binomial opinions: 1/8 grid (exhaustive in thorough, sampled in quick), "
         "random dyadic grids up to 1/64, arbitrary floats; blaw kinds 0..5 (commutativity, associativity, De Morgan) on "
         "pairs/triples; variant `p` (bmul/bcomul also report BOpinion::projection() of both operands and of the result: the method must "
         "answer b+a*u and obey the product/coproduct law itself) on grid, dyadic and float operands incl. d>b with base rates away from 1/2, "
         "and bproj on single opinions; variant `alias` (the SAME object as both operands: x.mul(&x), x.comul(&x), and blaw with y aliased "
-        "to x); a panic on exactly well-formed operands inside the domain is reported here (no hand-over to C19); f32+f64. "
+        "to x); plain DECIMAL operands (masses (1-p, 0, p) in the four placements with the zero on b or d, p in {1,2,5}*10^-k, k = 1..5, or "
+        "j/100; the literals themselves when their float sum is 1.0, or the small mass the exact complement of the large one; base rates "
+        "j/100) for bmul/bcomul, CHAINS (blaw, mostly the associativity kinds) on the ninths / tenths / twelfths grids (masses and rates "
+        "the rounded quotients k/9.0 ..), and the enumerated members of both families on which mul / comul rejected their own result before "
+        "repair d46c983 (gen/corpus/binorm_hot.txt, exhaustive scan tools/scan/binorm_scan.rs; the exactly well-formed ones here, all of "
+        "them in C19); a panic of any call -- also inside a blaw chain -- on exactly well-formed operands inside the domain is reported "
+        "here (no hand-over to C19); f32+f64. "
         "non-trivial = implementation returned a value")
 EXHAUSTIVE = {}
 nontrivial = default_nontrivial
@@ -19,9 +27,97 @@ LEVEL_TEXT = ("Theorems over the exact model for all rational well-formed operan
               "tied to BOpinion::mul/comul by the correspondence check, with the same predicates evaluated on the implementation's outputs.")
 
 
+# ---- plain DECIMAL operands and CHAINS on non-dyadic grids (added with repair d46c983: before it mul / comul passed the
+# un-normalised masses to the self-check and panicked on such operands; see known_findings.txt)
+
+def _fsum3(fmt, b, d, u):
+    """b + d + u as the crate evaluates it in `fmt`"""
+    return G.round_fmt(fmt, G.round_fmt(fmt, b + d) + u)
+
+
+def _dec_pair(rng, fmt):
+    """(hi, lo): the decimal literals 1 - p and p, p in {1,2,5}*10^-k (k = 1..5) or p = j/100, rounded to `fmt`"""
+    if rng.random() < 0.75:
+        m, k = rng.choice([1, 2, 5]), rng.randint(1, 5)
+    else:
+        m, k = rng.randint(1, 50), 2
+    p = Decimal(m).scaleb(-k)
+    return G.round_fmt(fmt, float(Decimal(1) - p)), G.round_fmt(fmt, float(p))
+
+
+def decimal_operand(rng, fmt):
+    """a binomial opinion with masses (1-p, 0, p) in one of the four placements with the zero on b or d, base rate j/100.
+    Two flavours: the decimal LITERALS themselves when their sum is exactly 1.0 in `fmt` arithmetic (well-formed for the
+    constructor, usually not as rationals), or the large mass a literal and the small one its exact complement 1 - hi
+    (exactly well-formed as rationals: this property's oracle judges those, C19's the others)"""
+    while True:
+        hi, lo = _dec_pair(rng, fmt)
+        if rng.random() < 0.5:
+            lo = G.round_fmt(fmt, 1.0 - hi)            # exact (Sterbenz for hi >= 1/2; checked below)
+            if Fr(hi) + Fr(lo) != 1:
+                continue
+        b, d, u = rng.choice([(hi, 0.0, lo), (lo, 0.0, hi), (0.0, hi, lo), (0.0, lo, hi)])
+        if _fsum3(fmt, b, d, u) != 1.0:
+            continue
+        return [b, d, u, G.round_fmt(fmt, float(Decimal(rng.randint(1, 99)).scaleb(-2)))]
+
+
+def decimal_cases(rng, fmt, n):
+    """bmul / bcomul on pairs of plain decimal operands"""
+    out = []
+    for _ in range(n):
+        x, y = decimal_operand(rng, fmt), decimal_operand(rng, fmt)
+        out.append(G.line(rng.choice(["bmul", "bcomul"]), fmt, rng.choice(["B.o", "B.o", "B.o.p"]), [], x + y))
+    return out
+
+
+_COMPS = {g: list(G.all_compositions(g, 3)) for g in (9, 10, 12)}
+
+
+def chain_operand(rng, fmt, g):
+    """masses i/g, j/g, k/g (i + j + k = g) and base rate r/g (0 < r < g), each the quotient rounded to `fmt` (what k as V / g as V
+    gives); g = 9, 10, 12: not dyadic, the sum of the masses is 1 only up to rounding"""
+    c = rng.choice(_COMPS[g]) if rng.random() < 0.5 else rng.choice(
+        [(0, 0, g), (g - 1, 0, 1), (1, 0, g - 1), (0, g - 1, 1), (0, 1, g - 1), (g - 2, 1, 1), (1, 1, g - 2)])
+    return [G.round_fmt(fmt, v / g) for v in c] + [G.round_fmt(fmt, rng.randint(1, g - 1) / g)]
+
+
+def chain_cases(rng, fmt, n):
+    """blaw, mostly the associativity kinds 1 and 3: (x*y)*z against x*(y*z) -- the value of one call is an operand of the next"""
+    out = []
+    for _ in range(n):
+        g = rng.choice([9, 9, 10, 12])
+        x, y, z = chain_operand(rng, fmt, g), chain_operand(rng, fmt, g), chain_operand(rng, fmt, g)
+        out.append(G.line("blaw", fmt, "B.o", [rng.choice([1, 1, 1, 3, 3, 3, 0, 2, 4, 5])], x + y + z))
+    return out
+
+
+_HOT = None
+
+
+def hot_cases(fmt, exact_only):
+    """the operand tuples on which mul / comul rejected their own result before repair d46c983 (gen/corpus/binorm_hot.txt, from the
+    exhaustive scan tools/scan/binorm_scan.rs over the two families above: the failure rate of a random member is 1e-7 .. 1e-5, so
+    only the enumerated hits give these streams teeth against a regression).  `exact_only`: the operands that are exactly well-formed
+    as rationals (families `*-cmp`), which this property's oracle judges; C19 replays all of them."""
+    global _HOT
+    if _HOT is None:
+        _HOT = []
+        with open(os.path.join(os.path.dirname(os.path.dirname(os.path.dirname(os.path.abspath(__file__)))), "gen", "corpus",
+                               "binorm_hot.txt")) as fh:
+            for ln in fh:
+                if ln.strip() and not ln.startswith("#"):
+                    case, fam = ln.split("#")
+                    _HOT.append((case.strip(), fam.strip()))
+    return [c for c, fam in _HOT if c.split(" ")[1] == fmt and (not exact_only or "-cmp" in fam)]
+
+
 def cases(rng, tier):
     out = []
     grid = G.grid_bops(8)
+    for fmt in ("f64", "f32"):
+        n = 1500 if tier == "quick" else 40000
+        out += hot_cases(fmt, True) + decimal_cases(rng, fmt, n) + chain_cases(rng, fmt, n)
     for fmt in ("f64", "f32"):
         if tier == "thorough" and fmt == "f64":
             for x in grid:
